@@ -23,7 +23,7 @@ from mc.report import Report
 LEVEL = "exploration"
 RULE = ("flow back-end {zuko MAF, flowjax MAF} x bounded transform {logit, probit, off} x affine {on, off} x dtype {float32, "
         "float64} x dims {1,2} x training set {centred, piled against the upper bound, narrow (sigma = 1e-2 width)} x stage "
-        "{trained, trained->saved->loaded, trained twice on different data (refit), refit->saved->loaded} (+ Aspire-built default flow and Aspire.sample_flow); for each: quadrature of "
+        "{trained, trained->saved->loaded, trained twice on different data (refit), refit->saved->loaded} (+ Aspire-built default flow, also with periodic parameters declared, and Aspire.sample_flow); for each: quadrature of "
         "exp(log_prob) over the support = 1, every row of sample_and_log_prob(256) has log q == log_prob(x), draws inside the "
         "bounds. non-trivial = configuration with at least one data transform; distinct = distinct configuration")
 ASSUMPTIONS = [
@@ -136,7 +136,7 @@ def run_config(cfg):
     try:
         rng = np.random.default_rng(seed)
         x = training(data, d, rng)
-        if stage == "aspire":
+        if stage.startswith("aspire"):
             from aspire import Aspire
             from aspire.samples import Samples
 
@@ -144,6 +144,7 @@ def run_config(cfg):
             a = Aspire(log_likelihood=lambda s: 0, log_prior=lambda s: 0, dims=d, parameters=params,
                        prior_bounds={p: [float(l), float(h)] for p, l, h in reversed(list(zip(params, LO[:d], HI[:d])))} if bounded != "off" else None,
                        bounded_to_unbounded=bounded != "off", bounded_transform=bounded if bounded != "off" else "logit",
+                       periodic_parameters=[params[-1]] if stage == "aspire-periodic" else None,  # declared for the samplers; the proposal must stay a density on the box
                        flow_backend=backend, dtype=dt, xp=get_xp("numpy"), **({"seed": seed, "hidden_features": [16, 16], "transforms": 2} if backend == "zuko" else {}))
             if backend == "zuko":
                 a.fit(Samples(x=x, parameters=params, xp=get_xp("numpy")), n_epochs=2, batch_size=64)
@@ -213,7 +214,7 @@ def run_config(cfg):
         i = int(np.argmax(bad))
         r.violation(f"C03/{backend}/sample-logq-differs-from-log_prob/{bounded}/affine={affine}",
                     {"row": i, "x": xs_np[i].tolist(), "returned": lq_np[i], "log_prob": lp_np[i], "tol": float(tol[i]), "n_bad": int(bad.sum())}, case)
-    if stage == "aspire":
+    if stage.startswith("aspire"):
         try:
             if backend == "zuko":
                 import torch
@@ -287,6 +288,10 @@ def configs(tier, seed):
             out.append(("zuko", bounded, affine, "float64", 1, "centred", "refit", 0))
             out.append(("zuko", bounded, affine, "float64", 1, "piled", "refit-loaded", 0))
     out.append(("flowjax", "logit", True, "float64", 1, "centred", "refit", 0))
+    # periodic parameters declared on the Aspire instance (they concern the samplers' preconditioning, not the proposal)
+    for bounded in ("logit", "probit"):
+        out.append(("zuko", bounded, True, "float64", 2, "piled", "aspire-periodic", 0))
+    out.append(("zuko", "logit", True, "float64", 1, "piled", "aspire-periodic", 0))
     # a non-default (large) clipping margin: data well inside the bounds, so the sliver carries no mass
     for bounded in ("logit", "probit"):
         out.append(("zuko", bounded, True, "float64", 1, "centred", "trained", 0, 1e-2))
